@@ -187,6 +187,19 @@ def generate(seed: int, flavour: str) -> dict:
     init = [strat("init", k) for k in range(ninit)]
     exps = [[strat("exp%d_" % j, k) for k in range(m)] for j, m in enumerate(nexps)]
 
+    # symmetries (drawn last): one-child two-way rules, image of the same emptiness (the searcher copies the emptiness of a class
+    # onto its symmetric images); applied by the searcher to *every* child label, empty ones included
+    nsym = rnd.choice((0, 0, 1))
+    syms = []
+    for k in range(nsym):
+        table = {}
+        for c in classes:
+            if rnd.random() < 0.3:
+                continue
+            pool = [d for d in classes if (d in empty) == (c in empty)]
+            table[c] = {"par": c, "ch": [rnd.choice(pool)], "pe": False, "ip": False, "wk": False, "tw": True, "rv": True, "sh": [0], "nf": False}
+        syms.append({"name": "sym%d" % k, "pe": False, "ip": False, "wk": False, "nf": False, "table": table})
+
     def fn(strats):
         out = {}
         for c in classes:
@@ -200,9 +213,9 @@ def generate(seed: int, flavour: str) -> dict:
         sets = [[[s["table"][c]] if c in s["table"] else [] for s in es] for es in exps]
         if any(any(x) for x in sets):
             expand[c] = sets
-    return {"start": 0, "empty": empty, "verified": verified, "initial": fn(init), "expand": expand, "inferral": fn(inf), "symm": {}, "n": n,
-            "ninf": ninf, "nsym": 0, "ninit": ninit, "nexps": nexps, "iterative": False, "flavour": flavour, "reverse": forest and rnd.random() < 0.6,
-            "_strats": {"inf": inf, "init": init, "exps": exps}, "_seed": seed}
+    return {"start": 0, "empty": empty, "verified": verified, "initial": fn(init), "expand": expand, "inferral": fn(inf), "symm": fn(syms), "n": n,
+            "ninf": ninf, "nsym": nsym, "ninit": ninit, "nexps": nexps, "iterative": False, "flavour": flavour, "reverse": forest and rnd.random() < 0.6,
+            "_strats": {"inf": inf, "init": init, "exps": exps, "sym": syms}, "_seed": seed}
 
 
 def realise(u: dict, uid: int):
@@ -210,10 +223,10 @@ def realise(u: dict, uid: int):
     _EMPTY[uid] = frozenset(u["empty"])
 
     def mk(s):
-        return TableStrategy(uid, s["name"], s["table"], s["pe"], s["ip"], s["wk"], True)
+        return TableStrategy(uid, s["name"], s["table"], s["pe"], s["ip"], s["wk"], s.get("nf", True))
 
     st = u["_strats"]
     pack = StrategyPack(initial_strats=[mk(s) for s in st["init"]], inferral_strats=[mk(s) for s in st["inf"]],
-                        expansion_strats=[[mk(s) for s in es] for es in st["exps"]], ver_strats=[TableVerified(uid, u["verified"])],
+                        expansion_strats=[[mk(s) for s in es] for es in st["exps"]], ver_strats=[TableVerified(uid, u["verified"])], symmetries=[mk(s) for s in st["sym"]],
                         name="table universe %d" % u["_seed"])
     return GC(uid, 0), pack
